@@ -104,6 +104,35 @@ def _plain_lvalue(a):
     return a.get("k") == "ref" and a.get("dk") in ("local", "param")
 
 
+def _is_remaining_accessor(g):
+    """`size_t available(const uint8_t* p) const`: every return is 0 or `end - p` with `end = buf.data() + buf.size()` — a shape the bounds
+    rules read as it stands (result >= k > 0 means k bytes lie behind p); spliced in, its answer would hide in a multi-definition local"""
+    from .facts import const_value, local_defs
+    if not g.params or (g.params[0]["t"] or {}).get("k") != "ptr":
+        return False
+    ends = set()
+    for d, es in local_defs(g).items():
+        if len(es) == 1:
+            e = strip_all_casts(es[0])
+            if e.get("k") == "bin" and e.get("op") == "+":
+                l, r = strip_all_casts(e["l"]), strip_all_casts(e["r"])
+                if l.get("k") == "call" and (l.get("callee") or {}).get("nm") == "data" and r.get("k") == "call" and (r.get("callee") or {}).get("nm") == "size":
+                    ends.add(d)
+    rets = g.returns()
+    if not ends or not rets:
+        return False
+    diff = False
+    for r in rets:
+        e = strip_all_casts(r.get("e") or {})
+        if const_value(e) == 0:
+            continue
+        if e.get("k") == "bin" and e.get("op") == "-" and strip_all_casts(e["l"]).get("decl") in ends and strip_all_casts(e["r"]).get("decl") == g.params[0]["decl"]:
+            diff = True
+            continue
+        return False
+    return diff
+
+
 def _candidate(fb, g, vocab):
     if g is None or g.body is None or not g.cfg_raw or not g.raw.get("inrepo") or g.raw.get("templated") or g.raw.get("virtual"):
         return False
@@ -115,6 +144,8 @@ def _candidate(fb, g, vocab):
     if not ("(anon-ns)" in g.name or g.raw.get("access") in ("private", "protected") or (not g.rec and g.raw.get("static"))):
         return False
     if len(g.cfg_raw.get("blocks", [])) > MAX_BLOCKS:
+        return False
+    if _is_remaining_accessor(g):
         return False
     for x in g.nodes():
         if x.get("k") == "decl" and any(v.get("static") for v in x.get("vars", [])):
